@@ -58,6 +58,7 @@ class FunctionTranslator:
     def __init__(self, module, fn):
         self.module, self.fn = module, fn
         self.sites = []
+        self.compare_handler_returns = []
 
     def site(self, callee, stack):
         self.sites.append((callee, [list(h) for h in stack]))
@@ -143,6 +144,11 @@ class FunctionTranslator:
                                            f"the step status to FAILED")
                 caught.extend(classes)
                 self.block(h.body, stack)
+                # a handler around the data checker's call: does the function end there (`return` as last statement)?
+                # Otherwise add_log_records_from_data_checker() would overwrite the FAILED status it has just set.
+                if any(isinstance(n, ast.Call) and ast.unparse(n.func) == "checker.check_object_store"
+                       for st in s.body for n in ast.walk(st)):
+                    self.compare_handler_returns.append(bool(h.body) and isinstance(h.body[-1], ast.Return))
             self.block(s.body, [caught] + stack)
             self.block(s.orelse, stack)
             self.block(s.finalbody, stack)
@@ -150,8 +156,12 @@ class FunctionTranslator:
             raise TranslationError(f"{self.module}.{self.fn}: unsupported statement {type(s).__name__}")
 
 
+HANDLER_RETURNS = []      # filled by translate_checks: (function, every handler around check_object_store returns)
+
+
 def translate_checks(repo):
     functions = []
+    del HANDLER_RETURNS[:]
     for m in MODULES:
         path = os.path.join(repo, "compliance_tool", "aas_compliance_tool", m + ".py")
         tree = ast.parse(open(path).read())
@@ -161,6 +171,8 @@ def translate_checks(repo):
                 ft = FunctionTranslator(short, node.name)
                 ft.block(node.body, [])
                 functions.append((f"{short}.{node.name}", ft.sites))
+                if ft.compare_handler_returns:
+                    HANDLER_RETURNS.append((f"{short}.{node.name}", all(ft.compare_handler_returns)))
             elif isinstance(node, (ast.Import, ast.ImportFrom, ast.Assign, ast.Expr)):
                 continue
             else:
@@ -396,6 +408,10 @@ def render(functions, methods, table, unordered, checker_raises):
     L.append(";\n".join(f"  ({coq_str(m)}, ([" + "; ".join(coq_str(a) for a in at) + "], [" +
                         "; ".join(coq_str(d) for d in de) + "]))" for m, at, de in methods))
     L.append("].")
+    L.append("")
+    L.append("(* per function with handlers around checker.check_object_store: do they all end with `return`? *)")
+    L.append("Definition compare_handler_returns : list (string * bool) := [" + "; ".join(
+        "(" + coq_str(f) + ", " + ("true" if b else "false") + ")" for f, b in HANDLER_RETURNS) + "].")
     L.append("")
     L.append("(* checker methods raising NotImplementedError when either list has order_relevant = False *)")
     L.append("Definition unordered_raises : list string := [" + "; ".join(coq_str(m) for m in unordered) + "].")
